@@ -53,13 +53,13 @@ func cfgFor(tier string) tierCfg {
 	if tier == "thorough" {
 		c.lost = true
 		c.pairs = func(string) bool { return true }
-		c.pairsNote = "all pod kinds"
-		c.deadline = 22 * time.Minute
+		c.chainPairs = true
+		c.pairsNote = "pairs within one attempt on all pod kinds (kinds err/crash/lost/watch answers); additionally pairs inside the second attempt of every chained start state"
+		c.deadline = 21 * time.Minute
 	} else {
-		sub := map[string]bool{"fraction-new-group": true, "multi-fraction-x2": true, "dra-claim": true}
-		c.pairs = func(s string) bool { return sub[s] }
-		c.pairsNote = "pairs on the subset {fraction-new-group, multi-fraction-x2, dra-claim}; kinds err/crash/watch answers"
-		c.deadline = 120 * time.Second
+		c.pairs = func(string) bool { return true }
+		c.pairsNote = "pairs within one attempt on all pod kinds (kinds err/crash/watch answers); chained second attempts get single deviations"
+		c.deadline = 130 * time.Second
 	}
 	return c
 }
@@ -399,7 +399,20 @@ func (r *runner) runJob(in *scenInfo, j job) {
 					r.res.Skipped++
 					continue
 				}
-				r.exec(sc, Spec{Scenario: sc.Name, Attempts: [][]br.Dev{j.Prefix, {{At: k, Kind: kind}}}}, ref, len(j.Prefix)+1)
+				o1 := r.exec(sc, Spec{Scenario: sc.Name, Attempts: [][]br.Dev{j.Prefix, {{At: k, Kind: kind}}}}, ref, len(j.Prefix)+1)
+				if !r.cfg.chainPairs || o1 == nil || kind == br.Crash {
+					continue
+				}
+				ref2 := &o1.Attempts[1]
+				for k2 := k + 1; k2 < len(ref2.Calls); k2++ {
+					for _, kind2 := range br.Deviations(&ref2.Calls[k2], r.cfg.lost) {
+						if r.budget.Exceeded() {
+							r.res.Skipped++
+							continue
+						}
+						r.exec(sc, Spec{Scenario: sc.Name, Attempts: [][]br.Dev{j.Prefix, {{At: k, Kind: kind}, {At: k2, Kind: kind2}}}}, ref2, len(j.Prefix)+2)
+					}
+				}
 			}
 		}
 	}
@@ -507,6 +520,24 @@ func run(tier string) int {
 	}
 	minimal := minimise(allFindings)
 	for _, f := range minimal {
+		// a candidate violation is re-executed from its choice sequence before it is reported
+		for i := 0; i < 3; i++ {
+			sc := scenarioByName(tier, f.Spec.Scenario)
+			o, err := Execute(sc, f.Spec)
+			again := false
+			if err == nil {
+				for _, g := range o.Findings {
+					gg := finding{What: g.Key, Pod: sc.Name, Causes: causesOf(o, g)}
+					if gg.key() == f.key() {
+						again = true
+					}
+				}
+			}
+			if !again {
+				fmt.Fprintf(os.Stderr, "harness error: violation %s did not reproduce on re-execution of %s\n", f.key(), f.Spec.String())
+				return 2
+			}
+		}
 		if os.Getenv("VERIF_KEYS") != "" {
 			fmt.Printf("KEY %s\n        %s\n", f.key(), f.Msg)
 		}
@@ -537,7 +568,7 @@ func run(tier string) int {
 	exhaustive := agg.Skipped == 0
 	bound := 1
 	if agg.ByBound["2"] > 0 {
-		bound = 2
+		bound = 2 // pairs inside one attempt (plus chained attempts); executions with 3 deviations are chained 1+2
 	}
 	chainStates := map[string]int{}
 	for _, in := range infos {
